@@ -8,9 +8,13 @@ import (
 	"time"
 
 	"com.tuntun.rangers/node/src/common"
+	"com.tuntun.rangers/node/src/consensus/access"
 	"com.tuntun.rangers/node/src/consensus/groupsig"
 	"com.tuntun.rangers/node/src/consensus/model"
+	"com.tuntun.rangers/node/src/consensus/net"
 	"com.tuntun.rangers/node/src/consensus/vrf"
+	"com.tuntun.rangers/node/src/core"
+	"com.tuntun.rangers/node/src/middleware"
 	"com.tuntun.rangers/node/src/middleware/log"
 	"com.tuntun.rangers/node/src/middleware/types"
 )
@@ -204,3 +208,133 @@ func VerifVerifyBlockVRF(bh, preBH *types.BlockHeader, castor *model.MinerInfo, 
 
 // VerifGenVrfMsg is genVrfMsg.
 func VerifGenVrfMsg(random []byte, delta int) []byte { return genVrfMsg(random, delta) }
+
+// ---------------------------------------------------------------------------
+// Processor / signing party: admission of cast and verify messages, buffering
+// of early messages, party re-keying, time-out, finalisation.
+
+// VerifProcessor is a Processor reduced to what OnMessageCast / OnMessageVerify
+// use: the party table, the finished-party and future-message caches, and the
+// collaborators handed to every new SignParty.
+type VerifProcessor struct {
+	p *Processor
+}
+
+// VerifNewProcessor builds the processor of one verifier node. chain is what
+// the parties see as the block chain (round 0's block verification itself goes
+// to core.GetBlockChain(), as in production); netServer receives what the node
+// sends.
+func VerifNewProcessor(mi *model.SelfMinerInfo, joined *access.JoinedGroupStorage, groups *access.GroupAccessor,
+	chain core.BlockChain, netServer net.NetworkServer) *VerifProcessor {
+	if stdLogger == nil {
+		InitConsensus()
+	}
+	p := &Processor{}
+	p.partyManager = make(map[string]Party, 10)
+	p.partyLock = middleware.NewLoglock("partyLock")
+	p.logger = log.GetLoggerByIndex(log.CLogConfig, strconv.Itoa(common.InstanceIndex))
+	p.finishedParty = common.CreateLRUCache(300)
+	p.futureMessages = common.CreateLRUCache(50)
+	p.MainChain = chain
+	p.GroupChain = core.GetGroupChain()
+	p.mi = mi
+	p.globalGroups = groups
+	p.belongGroups = joined
+	p.NetServer = netServer
+	p.minerReader = access.NewMinerPoolReader()
+	p.ready = true
+	return &VerifProcessor{p: p}
+}
+
+// OnMessageCast / OnMessageVerify are the processor's handlers.
+func (v *VerifProcessor) OnMessageCast(ccm *model.ConsensusCastMessage)     { v.p.OnMessageCast(ccm) }
+func (v *VerifProcessor) OnMessageVerify(cvm *model.ConsensusVerifyMessage) { v.p.OnMessageVerify(cvm) }
+
+// VerifPartyKey is the key a proposal's party is created under (generatePartyKey, hex).
+func (v *VerifProcessor) VerifPartyKey(bh types.BlockHeader) string {
+	return common.ToHex(v.p.generatePartyKey(bh))
+}
+
+// VerifPartyView is the projection of one live party.
+type VerifPartyView struct {
+	Key         string   // key in the party table
+	Id          string   // the party's own id
+	Round       int      // 0, 1, 2; -1: no round left
+	Started     bool     // current round's started flag (round 0)
+	HasBlock    bool     // the round knows its block header
+	BlockHash   string   // ... and its hash
+	Shares      []string // member ids (hex) in the block-share set (round 1)
+	ShareSigs   [][]byte // the stored block shares, parallel to Shares
+	Recovered   bool
+	PartyFuture int // messages buffered inside the party
+}
+
+// Parties projects the party table.
+func (v *VerifProcessor) Parties() []VerifPartyView {
+	v.p.partyLock.Lock("verifParties")
+	keys := make([]string, 0, len(v.p.partyManager))
+	parties := make([]Party, 0, len(v.p.partyManager))
+	for k, pt := range v.p.partyManager {
+		keys = append(keys, k)
+		parties = append(parties, pt)
+	}
+	v.p.partyLock.Unlock("verifParties")
+	out := make([]VerifPartyView, 0, len(keys))
+	for i, pt := range parties {
+		sp, ok := pt.(*SignParty)
+		if !ok {
+			continue
+		}
+		sp.lock()
+		view := VerifPartyView{Key: keys[i], Id: sp.id, Round: -1, PartyFuture: len(sp.futureMessages)}
+		var r0 *round0
+		var r1 *round1
+		switch r := sp.rnd.(type) {
+		case *round0:
+			r0 = r
+		case *round1:
+			r0, r1 = r.round0, r
+		case *round2:
+			r0, r1 = r.round0, r.round1
+		}
+		if sp.rnd != nil {
+			view.Round = sp.rnd.RoundNumber()
+		}
+		if r0 != nil {
+			view.Started = r0.started
+			if r0.bh != nil {
+				view.HasBlock = true
+				view.BlockHash = r0.bh.Hash.Hex()
+			}
+		}
+		if r1 != nil && r1.gSignGenerator != nil {
+			for id, sig := range r1.gSignGenerator.witnessSignMap {
+				view.Shares = append(view.Shares, id)
+				view.ShareSigs = append(view.ShareSigs, sig.Serialize())
+			}
+			view.Recovered = r1.gSignGenerator.SignRecovered()
+		}
+		sp.unlock()
+		out = append(out, view)
+	}
+	return out
+}
+
+// Finished tells whether a key is in the finished-party cache.
+func (v *VerifProcessor) Finished(key string) bool {
+	v.p.partyLock.Lock("verifFinished")
+	defer v.p.partyLock.Unlock("verifFinished")
+	return v.p.finishedParty.Contains(key)
+}
+
+// BufferedFor is the number of messages the processor buffered for a party
+// that does not exist yet (key: hex of the block hash).
+func (v *VerifProcessor) BufferedFor(key string) int {
+	v.p.partyLock.Lock("verifBuffered")
+	defer v.p.partyLock.Unlock("verifBuffered")
+	raw, ok := v.p.futureMessages.Peek(key)
+	if !ok {
+		return 0
+	}
+	return len(raw.([]model.ConsensusMessage))
+}
